@@ -4,7 +4,9 @@ import sys
 EXC_CLASSES = ['Boom', 'ValueError', 'KeyError', 'AssertionError', 'OSError', 'RuntimeError', 'TypeError',
                'ts.CastError', 'ts.CastErrorWithErrors', 'ts.ValidationError', 'ts.UniqueKeyError', 'ts.TableSchemaException',
                'dp.DataPackageException', 'dp.ValidationError', 'dp.CastError', 'df.ValidationError', 'df.ProcessorError',
-               'tabulator.SourceError', 'UnicodeDecodeError', 'ZeroDivisionError', 'StopIteration']
+               'tabulator.SourceError', 'UnicodeDecodeError', 'ZeroDivisionError', 'StopIteration', 'AttributeError', 'IndexError', 'LookupError']
+# the classes library code is most likely to have handlers for (a handler that is too wide swallows a real failure)
+HANDLED_CLASSES = ['KeyError', 'ValueError', 'TypeError', 'AttributeError', 'IndexError', 'LookupError', 'OSError', 'AssertionError']
 
 
 class Boom(Exception):
@@ -165,14 +167,22 @@ class Poison:
     """A cell value whose use raises: the *built-in* step that first touches it (formats it, compares it, hashes it,
     iterates it, adds it ...) raises from its own frame, at a known row.  isinstance checks do not touch it."""
 
-    def __init__(self, exc_name, ctx):
+    def __init__(self, exc_name, ctx, heal=None):
         object.__setattr__(self, '_exc_name', exc_name)
         object.__setattr__(self, '_ctx', ctx)
+        object.__setattr__(self, '_heal', heal)
 
     def _fire(self, how):
         ctx = object.__getattribute__(self, '_ctx')
         ctx.fault('poison')
         ctx.log('fault', 'poison', how)
+        heal = object.__getattribute__(self, '_heal')
+        if heal is not None:
+            # the failure is transient: the cell holds its ordinary value again once the use has failed, so a step that
+            # swallows the failure in a handler of its own carries on with clean data - and the run returns normally
+            row, name, orig = heal
+            if row.get(name) is self:
+                row[name] = orig
         raise make_exc(object.__getattribute__(self, '_exc_name'), 'poison')
 
     def __str__(self):
@@ -226,8 +236,22 @@ class Poison:
 
 
 def poisoner(fault, ctx):
-    """A rows-step replacing one cell (resource r, row k, field by position) with a Poison."""
+    """A rows-step replacing one cell (resource r, row k, field by position) with a Poison.  With 'res_name' and
+    'field_name' in the fault: a package-step poisoning that named cell (a cell the next step uses as a key)."""
     state = {'res': -1}
+    if fault.get('res_name'):
+        def pstep(package):
+            yield package.pkg
+            for res in package:
+                yield named(res) if res.res.name == fault['res_name'] else res
+
+        def named(rows):
+            for k, row in enumerate(rows):
+                if k == fault['row'] and fault['field_name'] in row:
+                    row[fault['field_name']] = Poison(fault['exc'], ctx, heal=(row, fault['field_name'], row[fault['field_name']]))
+                    ctx.log('fault', 'poison-planted', fault['res_name'], k, fault['field_name'])
+                yield row
+        return pstep
 
     def step(rows):
         state['res'] += 1
@@ -235,7 +259,7 @@ def poisoner(fault, ctx):
             if state['res'] == fault['res'] and k == fault['row'] and row:
                 names = [n for n in row if n != '_id'] or list(row)
                 name = names[fault.get('field', 0) % len(names)]
-                row[name] = Poison(fault['exc'], ctx)
+                row[name] = Poison(fault['exc'], ctx, heal=(row, name, row[name]))
                 ctx.log('fault', 'poison-planted', state['res'], k, name)
             yield row
     return step
